@@ -53,10 +53,15 @@ func VerifRecvAfterStop(reader string, windows bool, del bool, protocol int) str
 	if windows {
 		t.transferConfig.Newline = "!\n"
 	}
-	go func() {
-		time.Sleep(30 * time.Millisecond)
+	if reader == "senddata" || reader == "gate" {
+		// these do not block: the stop has to be in force before they are called
 		t.stopTransferringFiles(del)
-	}()
+	} else {
+		go func() {
+			time.Sleep(30 * time.Millisecond)
+			t.stopTransferringFiles(del)
+		}()
+	}
 	var err error
 	switch reader {
 	case "line":
@@ -66,10 +71,8 @@ func VerifRecvAfterStop(reader string, windows bool, del bool, protocol int) str
 	case "v2":
 		_, _, _, err = t.recvCheckV2("SUCC")
 	case "senddata":
-		time.Sleep(60 * time.Millisecond)
 		err = t.sendData([]byte("x"))
 	case "gate":
-		time.Sleep(60 * time.Millisecond)
 		err = t.checkStopAndPause("DATA")
 	}
 	if err == nil {
